@@ -1542,6 +1542,9 @@ func (v *VMValue) ComputedExecute(ctx *Context, detail *BufferSpan) *VMValue {
 	}
 
 	if vm.Error != nil {
+		if vm.NumOpCount > ctx.NumOpCount {
+			ctx.NumOpCount = vm.NumOpCount // 出错时已消耗的算力同样记入
+		}
 		ctx.Error = vm.Error
 		return nil
 	}
@@ -1627,6 +1630,9 @@ func (v *VMValue) FuncInvokeRaw(ctx *Context, params []*VMValue, useUpCtxLocal b
 	}
 
 	if vm.Error != nil {
+		if vm.NumOpCount > ctx.NumOpCount {
+			ctx.NumOpCount = vm.NumOpCount // 出错时已消耗的算力同样记入
+		}
 		ctx.Error = vm.Error
 		return nil
 	}
